@@ -234,7 +234,7 @@ class DerivedFamily(Family):
             full = lay.get_gate_sequence_at_index(i)
             want = [g for g in layer_gates(full) if all(q in sub for q in g)]
             got = layer_gates(layer)
-            if got != want:
+            if sorted(got) != sorted(want):    # the order of the gates within a layer is not prescribed
                 res.fail('C17-kept-gates', '%s %r layer %d: kept %r, expected exactly the layout gates with both qubits involved %r' % (name, sub, i, got, want))
             kept_total += len(got)
             parks = layer_parks(layer)
@@ -242,7 +242,7 @@ class DerivedFamily(Family):
             gi = d.get_gate_sequence_indices(i)
             want_gi = [(index_of[op.identifier.qubit_ids[0].id], index_of[op.identifier.qubit_ids[1].id]) for op in layer.gate_operations
                        if all(q.id in sub for q in op.identifier.qubit_ids)]
-            if gi != want_gi:
+            if sorted(tuple(sorted(x)) for x in (gi or [])) != sorted(tuple(sorted(x)) for x in want_gi):
                 res.fail('C17-gate-indices', '%s %r layer %d: gate indices %r expected %r' % (name, sub, i, gi, want_gi))
             pi = d.get_park_sequence_indices(i)
             need = sorted(index_of[q] for q in sub if freq.requires_parking(q, got)) if freq.disjoint(got) else []
@@ -309,7 +309,7 @@ class CompositeFamily(Family):
                 want = [g for g in layer_gates(base_layer) if not any(q in ex for q in g)]
             got = layer_gates(layer)
             removed += len(layer_gates(base_layer)) - len(got)
-            if got != want:
+            if sorted(got) != sorted(want):
                 res.fail('C17-composite-gates', '%s excluding %s %r: layer %d keeps %r, expected %r' % (name, mode, ex, i, got, want))
             parks = layer_parks(layer)
             judge_layer(res, '%s excluding %s %r (only required=%r) layer %d' % (name, mode, ex, only, i), got, parks)
